@@ -284,11 +284,11 @@ pub fn substitution(out: &mut Out, v: &Vocab, e: &str, b: &Beh, r: &Rendered, sa
                    // Integer operations that leave the i64 range: the value of the subexpression is the rounded double, nothing more
                    "3037000555*3037000665", "4294967296*4294967296", "9223372036854775807*3", "9223372036854775807+9223372036854775807", "-9223372036854775807*9223372036854775807", "21!",
                    // a negation that leaves the i64 range (its value is the Float 2^63: a second negation does not bring the Integer back)
-                   "-(-9223372036854775807-1)", "-(0-9223372036854775807-1)", "abs(-9223372036854775807-1)",
+                   "-(-9223372036854775807-1)", "-(0-9223372036854775807-1)", "abs(-9223372036854775807-1)", "-9223372036854775808", "9223372036854775808",
                    "max(0/0,0)", "min(1,0/0)", "med(0/0,1,2)", "avg(1/0,1)"],
         "dec" => &["1.10", "1.50*2", "0.1+0.2", "1/3", "2.0", "-0.0", "79228162514264337593543950335", "0.0000000000000000000000000001"],
         "cpx" => &["-0", "0*-1", "i*i", "2i", "1/0", "-i", "0-0i", "1/3+i/7"],
-        _ => &["-9223372036854775807-1", "7/2", "9223372036854775807", "-7%3", "0*-1"],
+        _ => &["-9223372036854775807-1", "7/2", "9223372036854775807", "-7%3", "0*-1", "-9223372036854775808", "9223372036854775808", "- 9223372036854775808"],
     };
     // the context in every spelling of its first function token (the enclosing operation matters: an aggregate of the same kind,
     // a function with a branch cut, ...), when it has one and is short; otherwise in the one rendering at hand
